@@ -187,6 +187,32 @@ pub fn sequences(out: &mut dyn Write, rng: &mut Rng, n: usize) {
             line(out, b, &init, &ops);
         }
     });
+    // systematic sequences INSIDE a promotion group (known class K2 for the yielded sets - but never a panic):
+    // j promotions yielded, then a mask / removal that may empty the entry, then every size query and more nexts
+    let promo_roots = ["7k/P7/8/8/8/8/8/K7 w - - 0 1", "8/P1k5/K7/8/8/8/8/8 w - - 0 1", "n1n5/PPPk4/8/8/8/8/4Kppp/5N1N b - - 0 1",
+                       "4k3/1P6/8/8/8/8/1p6/4K3 w - - 0 1", "1n2k3/P7/8/8/8/8/8/4K3 w - - 0 1"];
+    for f in promo_roots {
+        let Ok(b) = f.parse::<Board>() else { continue };
+        let legals = crate::chess::sorted_moves(&b);
+        let promos: Vec<ChessMove> = legals.iter().copied().filter(|m| m.piece.is_some()).collect();
+        for j in 1..=5usize {
+            let mut muts: Vec<String> = vec!["m0".into(), format!("m{:x}", b.raw()[!b.turn()].to_u64()), "mffffffffffffffff".into(), "rffffffffffffffff".into()];
+            for m in &promos {
+                muts.push(format!("x{}", mv_str(*m)));
+                muts.push(format!("r{:x}", 1u64 << (m.dest as u8)));
+                muts.push(format!("m{:x}", !(1u64 << (m.dest as u8))));
+            }
+            for mu in muts {
+                let mut ops: Vec<String> = vec!["n".to_string(); j];
+                ops.push(mu);
+                for q in ["l", "e", "h", "n", "l", "n", "n", "n", "n", "l", "e"] {
+                    ops.push(q.into());
+                }
+                made += 1;
+                line(out, &b, "L", &ops);
+            }
+        }
+    }
     writeln!(out, "DIST\titer_positions={npos}\titer_positions_with_promotion={promo_pos}\titer_sequences={made}").unwrap();
     let _ = (Color::White, sorted_moves);
 }
